@@ -6,22 +6,6 @@ import (
 	"strings"
 )
 
-// exactKey is the row key with tolerant floats left out (they are matched within tolerance).
-func exactKey(r Row) string {
-	var sb strings.Builder
-	for i, v := range r {
-		if i > 0 {
-			sb.WriteByte('|')
-		}
-		if v.K == KFloat && v.Tol > 0 {
-			sb.WriteString("F~")
-			continue
-		}
-		v.appendKey(&sb)
-	}
-	return sb.String()
-}
-
 func rowTolEqual(a, b Row) bool {
 	if len(a) != len(b) {
 		return false
